@@ -512,7 +512,7 @@ def malformed(ctx):
 
 def run(ctx):
     FM.quiet()
-    n = ctx.n(200, 5000)
+    n = ctx.n(200, 4000)
     for k in range(n):
         eval_case(ctx, gen_case(ctx.rng, k))
     malformed(ctx)
